@@ -16,6 +16,7 @@
 
 #include "jls/bit_shift.h"
 #include "jls/ec.h"
+#include <string.h>
 
 int32_t jls_bit_shift_array_right(uint8_t bits, void * data, size_t size) {
     if ((bits == 0) || (size == 0)) {
@@ -36,4 +37,41 @@ int32_t jls_bit_shift_array_right(uint8_t bits, void * data, size_t size) {
         carry = u8[i] >> bits;
     }
     return 0;
+}
+
+void jls_bit_copy(uint8_t * dst, uint64_t dst_bit, const uint8_t * src, uint64_t src_bit, uint64_t bit_count) {
+    dst += dst_bit / 8;
+    dst_bit &= 7;
+    src += src_bit / 8;
+    src_bit &= 7;
+    if ((0 == dst_bit) && (0 == src_bit)) {
+        size_t sz = (size_t) (bit_count / 8);
+        if (sz) {
+            memcpy(dst, src, sz);
+            dst += sz;
+            src += sz;
+            bit_count -= ((uint64_t) sz) * 8;
+        }
+    }
+    while (bit_count) {
+        // the number of bits available in both the current src and dst bytes
+        uint64_t n = 8 - ((dst_bit > src_bit) ? dst_bit : src_bit);
+        if (n > bit_count) {
+            n = bit_count;
+        }
+        uint8_t mask = (uint8_t) ((1U << n) - 1U);
+        uint8_t v = (uint8_t) ((*src >> src_bit) & mask);
+        *dst = (uint8_t) ((*dst & ~(mask << dst_bit)) | (v << dst_bit));
+        dst_bit += n;
+        src_bit += n;
+        bit_count -= n;
+        if (dst_bit >= 8) {
+            dst_bit = 0;
+            ++dst;
+        }
+        if (src_bit >= 8) {
+            src_bit = 0;
+            ++src;
+        }
+    }
 }
